@@ -33,6 +33,8 @@
 (* Deviations = named as-coded deviations (DESIGN.md 2.5); the empty set   *)
 (* is the specification proper.                                            *)
 (*   hdel_slice_arg      HDEL sub:<c> is sent with the field "[<filter>]"  *)
+(*   session_deleted_before_subs   a session is removed by DEL queue, DEL  *)
+(*                       session, DEL sub (demanded: the session key last) *)
 (*   phantom_session     DEL session: / DEL sub: for the empty client id   *)
 (*                       on a CONNECT with Clean Start 1 that finds nothing*)
 (*   unack_not_loaded    start-up does not load unack:<c> into the cache   *)
@@ -193,10 +195,8 @@ StartExpiry(ver, clean, req) ==
 
 \* removing a session: the session key is the commit point, it goes last (a restart between the commands must not
 \* leave keys of a session that no longer exists: they would be adopted by a later session with the same client id).
-\* As coded (deviation session_deleted_before_subs): DEL queue, DEL session, DEL sub.
-Terminate(c) == (IF c \in V.qs THEN << {DelK("queue", c)} >> ELSE << >>) \o
-                (IF Dev("session_deleted_before_subs") THEN << {DelK("session", c)}, {DelK("sub", c)} >>
-                                                       ELSE << {DelK("sub", c)}, {DelK("session", c)} >>)
+\* As coded (deviation session_deleted_before_subs): DEL queue, DEL session, DEL sub - see OwnerCmd / AsCodedChoice.
+Terminate(c) == (IF c \in V.qs THEN << {DelK("queue", c)} >> ELSE << >>) \o << {DelK("sub", c)}, {DelK("session", c)} >>
 
 Start(c, op, todo, ack) == pc' = Put(pc, c, [op |-> op, todo |-> todo, ack |-> ack])
 
@@ -349,17 +349,33 @@ DoneClose(c, op) ==
 \* Command-level deviations: the as-coded form of a demanded command is accepted instead (and recorded in `used`).
 AsCoded(x) == IF Dev("hdel_slice_arg") /\ x.cmd = "HDEL" /\ x.key = "sub" THEN [x EXCEPT !.f = "[" \o x.f \o "]"] ELSE x
 
+\* the session key of a session that is being removed is deleted before its subscriptions
+EarlySessionDel(c, x) ==
+  /\ Dev("session_deleted_before_subs")
+  /\ Len(pc[c].todo) >= 2
+  /\ pc[c].todo[1] = {DelK("sub", x.c)} /\ pc[c].todo[2] = {DelK("session", x.c)}
+  /\ x = DelK("session", x.c)
+
 OwnerCmd(x) ==
   \E c \in DOMAIN pc :
     /\ Len(pc[c].todo) > 0
-    /\ \E y \in Head(pc[c].todo) :
-         /\ x = y \/ (x # y /\ x = AsCoded(y))
-         /\ used' = IF x = y THEN used ELSE used \cup {"hdel_slice_arg"}
-         /\ Applicable(x)
-         /\ D' = Apply(x)
-         /\ pc' = Put(pc, c, [pc[c] EXCEPT !.todo = IF Head(pc[c].todo) = {y} THEN Tail(pc[c].todo)
-                                                          ELSE << Head(pc[c].todo) \ {y} >> \o Tail(pc[c].todo)])
+    /\ \/ \E y \in Head(pc[c].todo) :
+            /\ x = y \/ (x # y /\ x = AsCoded(y))
+            /\ used' = IF x = y THEN used ELSE used \cup {"hdel_slice_arg"}
+            /\ pc' = Put(pc, c, [pc[c] EXCEPT !.todo = IF Head(pc[c].todo) = {y} THEN Tail(pc[c].todo)
+                                                             ELSE << Head(pc[c].todo) \ {y} >> \o Tail(pc[c].todo)])
+       \/ /\ EarlySessionDel(c, x)
+          /\ used' = used \cup {"session_deleted_before_subs"}
+          /\ pc' = Put(pc, c, [pc[c] EXCEPT !.todo = << pc[c].todo[1] >> \o SubSeq(pc[c].todo, 3, Len(pc[c].todo))])
+    /\ Applicable(x)
+    /\ D' = Apply(x)
     /\ UNCHANGED <<V, G>>
+
+\* the commands the broker may issue next for the operation of c: as coded when a command-level deviation is on
+AsCodedChoice(c) ==
+  IF Len(pc[c].todo) = 0 THEN {}
+  ELSE IF \E x \in {DelK("session", c)} : EarlySessionDel(c, x) THEN {DelK("session", c)}
+  ELSE {AsCoded(y) : y \in Head(pc[c].todo)}
 
 \* as coded: a CONNECT with Clean Start 1 that finds no session terminates the session of the empty client id
 PhantomCmd(x) ==
@@ -372,11 +388,14 @@ PhantomCmd(x) ==
 
 \* the delivery goroutine of an online client: hands out the first element without packet id.
 \*   QoS0: removed (LREM); QoS>0: the assigned packet id is written back (LSET) before the PUBLISH is sent
+\* the delivery goroutine of c runs from the moment CONNACK has been written (the marker comes later)
+Active(c) == Online(c) \/ (V.up /\ c \in DOMAIN pc /\ pc[c].op.op = "connect" /\ pc[c].todo = << >>)
+
 PollCmd(x) ==
   LET c == x.c
       q == Queue(c)
       i == FirstIdx(q, LAMBDA e : e.id = 0)
-  IN /\ Online(c) /\ i # 0 /\ x.key = "queue" /\ Applicable(x)
+  IN /\ Active(c) /\ i # 0 /\ x.key = "queue" /\ Applicable(x)
      /\ \/ /\ q[i].qos = 0 /\ x = LRem(c, q[i])
         \/ /\ q[i].qos > 0 /\ x.cmd = "LSET" /\ x.idx = i - 1 /\ x.el.id # 0
            /\ x = LSet(c, i - 1, [q[i] EXCEPT !.id = x.el.id])
@@ -386,7 +405,7 @@ PollCmd(x) ==
 
 \* in-flight elements are re-written with a fresh in-flight expiry when they are replayed: no abstract change
 TouchCmd(x) ==
-  /\ x.cmd = "LSET" /\ x.key = "queue" /\ Online(x.c) /\ Applicable(x)
+  /\ x.cmd = "LSET" /\ x.key = "queue" /\ Active(x.c) /\ Applicable(x)
   /\ Queue(x.c)[x.idx + 1] = x.el /\ x.el.id # 0
   /\ UNCHANGED dvars
 
